@@ -147,6 +147,8 @@ fn raw_strategy() -> impl Strategy<Value = Case> {
         6 => (header_name(), header_value()).prop_map(|(n, v)| format!("{}: {}\r\n", n, v).into_bytes()),
         1 => "[ -~]{0,30}".prop_map(|s| format!("{}\r\n", s).into_bytes()),
         1 => "[ -~]{0,30}".prop_map(|s| format!("{}\n", s).into_bytes()),
+        // a colon that is not followed by the usual blank, an empty value, a line without a colon
+        2 => (header_name(), prop::sample::select(vec![":", ":\t", ":  ", ": ", ""]), "[!-~]{0,12}").prop_map(|(n, c, v)| format!("{}{}{}\r\n", n, c, v).into_bytes()),
         1 => Just(b"Content-Length: abc\r\n".to_vec()),
         1 => Just(b"Content-Length: -1\r\n".to_vec()),
         1 => Just(b"Content-Length: 1 2\r\n".to_vec()),
